@@ -35,12 +35,12 @@ ATTACKS = [  # (cfg, description)
 
 def _tier(tier):
     if tier == "quick":
-        return dict(mc=[("LogStream_quick.cfg", 150), ("LogStream_quick_kinds.cfg", 100)], cover="LogStream_cover.cfg",
-                    extra_edges=400, sim=(150, 40, 24), stress=150, packlogs=2000, workers=12)
+        return dict(mc=[("LogStream_quick.cfg", 110), ("LogStream_quick_kinds.cfg", 90)], cover="LogStream_cover.cfg",
+                    extra_edges=300, cover_cap=2500, sim=(150, 40, 24), stress=120, packlogs=2000, workers=12)
     return dict(mc=[("LogStream_thorough.cfg", 1500), ("LogStream_thorough_faults.cfg", 900), ("LogStream_quick.cfg", 600),
                     ("LogStream_quick_kinds.cfg", 600)],
-                cover="LogStream_cover_thorough.cfg", extra_edges=6000, sim=(3000, 45, 200), stress=3000, packlogs=50000,
-                workers=12)
+                cover="LogStream_cover_thorough.cfg", extra_edges=6000, cover_cap=None, sim=(3000, 45, 200), stress=3000,
+                packlogs=50000, workers=12)
 
 
 def _sim_files(seed, nsample):
@@ -132,26 +132,15 @@ def run(tier, seed):
         (ress["behaviours"], ress["nontrivial"], ress["counters"].get("faults", 0), ress["counters"].get("violations", 0),
          resk["behaviours"]))
 
-    # ---- 1. exhaustive model checking of the faithful spec
-    states = transitions = 0
-    exhaustive = True
-    for cfg, fut in f_mc:
-        r = fut.result()
-        if not vlib.expect_tlc_ok(r, cfg):
-            raise vlib.MachineryError("faithful LogStream spec violates %s in %s (model error, not a verdict):\n%s" %
-                                      (r.violation, cfg, json.dumps(vlib.tlaval.plain([s.get("act") for s in r.trace]))))
-        cov["configs"].append({"cfg": cfg, "distinct": r.distinct, "generated": r.generated, "depth": r.depth,
-                               "exhaustive": r.finished, "wall_s": round(r.wall, 1)})
-        states += r.distinct
-        transitions += r.generated
-        exhaustive = exhaustive and r.finished
-        log("[C13] TLC %s: %d distinct / %d generated, finished=%s, %.1fs" % (cfg, r.distinct, r.generated, r.finished, r.wall))
-
-    # ---- 2. behaviours: state-graph cover + seeded simulation + attack traces
+    # ---- 2. (while the exhaustive runs finish) behaviours: state-graph cover + seeded simulation + attack traces
     rg, nodes, edges, inits = f_cover.result()
     if not vlib.expect_tlc_ok(rg, T["cover"]):
         raise vlib.MachineryError("cover config violates %s" % rg.violation)
     behs, gstat = vlib.graph_behaviours(nodes, edges, inits, seed, max_extra=T["extra_edges"], state_vars=STATE_VARS)
+    if T["cover_cap"] and len(behs) > T["cover_cap"]:   # quick: a seeded sample of the cover (thorough replays all of it)
+        random.Random(seed).shuffle(behs)
+        behs = behs[:T["cover_cap"]]
+    gstat["replayed"] = len(behs)
     cov["cover_graph"] = gstat
     rs, sb = f_sim.result()
     if rs.violation or rs.error:
@@ -159,7 +148,7 @@ def run(tier, seed):
     for k, b in enumerate(sb):
         behs.append(vlib.trace_behaviour(b, "sim-%d-%d" % (seed, k), "sim", state_vars=STATE_VARS))
     cov["sim_behaviours"] = len(sb)
-    transitions += rs.generated
+    sim_generated = rs.generated
     attack_behs = []
     for cfg, desc, fut in f_att:
         beh, cached = fut.result()
@@ -168,7 +157,6 @@ def run(tier, seed):
             continue
         beh = dict(beh, kind="attack:" + desc)
         attack_behs.append(beh)
-    pool.shutdown()
     cov["attack_traces"] = len(attack_behs)
     allb = _slim(attack_behs + behs)
     inp = os.path.join(wd, "behaviours.ndjson")
@@ -191,6 +179,22 @@ def run(tier, seed):
         "%d divergences, %d attack steps refused" %
         (res["behaviours"], res["steps"], len(behs) - len(sb), len(sb), len(attack_behs), res["counters"].get("violations", 0),
          res["counters"].get("divergences", 0), res["counters"].get("attack_steps_refused", 0)))
+
+    # ---- 3. exhaustive model checking of the faithful spec
+    states, transitions = 0, sim_generated
+    exhaustive = True
+    for cfg, fut in f_mc:
+        r = fut.result()
+        if not vlib.expect_tlc_ok(r, cfg):
+            raise vlib.MachineryError("faithful LogStream spec violates %s in %s (model error, not a verdict):\n%s" %
+                                      (r.violation, cfg, json.dumps(vlib.tlaval.plain([s.get("act") for s in r.trace]))))
+        cov["configs"].append({"cfg": cfg, "distinct": r.distinct, "generated": r.generated, "depth": r.depth,
+                               "exhaustive": r.finished, "wall_s": round(r.wall, 1)})
+        states += r.distinct
+        transitions += r.generated
+        exhaustive = exhaustive and r.finished
+        log("[C13] TLC %s: %d distinct / %d generated, finished=%s, %.1fs" % (cfg, r.distinct, r.generated, r.finished, r.wall))
+    pool.shutdown()
 
     rc = verdict.report()
     if cov["divergences"] and rc == 0:
